@@ -74,6 +74,10 @@ type Packet struct {
 // MaxPacketLen bytes next to the NTP header, the unique identifier and the
 // authenticator (16 byte nonce, 16 byte tag). The same limit holds for the
 // cookies a response carries inside its authenticator.
+// MaxCookieLen is the length of the longest cookie a request of MaxPacketLen
+// bytes can carry next to a 32 byte unique identifier and the authenticator.
+const MaxCookieLen = MaxPacketLen - ntpPacketLen - (4 + 32) - (4 + 2 + 2 + 16 + 16) - 4
+
 func maxNumCookieFields(idLen, cookieLen int) int {
 	const authenticatorLen = 4 + 2 + 2 + 16 + 16
 	uidLen := 4 + (idLen+3)&^3
